@@ -1,6 +1,25 @@
 from props import _generic, _table
+from vlib import scan
+from vlib.report import Finding
+
+
+def frame_scan(rep, tier):
+  """Syntactic frame obligation (C06): `_NodeState.value` is written or mutated only inside _NodeState's own
+  methods (on the object under construction), so a state is an immutable value once built -- the ghost
+  predicates Defs / HasKey of the contracts are functions of the state object alone."""
+  allowed = {'_NodeState.__init__', '_NodeState.__or__', '_NodeState.__sub__', '_NodeState.__eq__', '_NodeState.__ne__',
+             '_NodeState.__repr__'}
+  sites, bad = scan.attr_writers('malt.pyct.static_analysis.reaching_definitions', {'value'}, allowed)
+  rep.coverage.setdefault('frame_scans', []).append(dict(
+      obligation='frame-scan/rd-nodestate-value', backend='ast-scan', sites_checked=sites, holds=not bad,
+      statement='in reaching_definitions.py, .value is assigned or mutated only inside _NodeState methods'))
+  for b in bad:
+    rep.add_finding(Finding('C06', 'scan:rd-nodestate-value:%s' % b['function'],
+                            'frame-scan/rd-nodestate-value: %s in %s (line %d): a reaching-definitions state is mutated after '
+                            'construction' % (b['what'], b['function'], b['line']), replay=b, concrete=False))
 
 
 def run(tier, seed):
   t = _table.TABLE['C06']
-  return _generic.standard('C06', t['level'], tier, seed, bounded=t['bounded'], explanation=t['explanation'])
+  return _generic.standard('C06', t['level'], tier, seed, bounded=t['bounded'], explanation=t['explanation'],
+                           shape=frame_scan)
